@@ -31,3 +31,9 @@ META["C07"] = dict(
           "chosen box edges land within +-3 of the 16/32-bit limits, a1 bitmaps with word-boundary widths; results compared with "
           "the model."),
     note="Trusted: harness/ref_region.hpp, little-endian a1 layout. Found and fixed: S6 (known_findings.json).")
+META["C11"] = dict(
+    technique="property-based testing (rapidcheck): boundary-biased matrices/vectors vs. exact 128-bit integer reference",
+    design_ref="§4 C11",
+    text=("Generated search (millions of calls) over every matrix entry point with magnitude extremes, w at 0 and at +-2^k, results "
+          "at the representability limits; each result compared with exact rational arithmetic in __int128 / long double."),
+    note="Trusted: the __int128 reference in props/matrix.cpp. Found and fixed: S7, S8 (known_findings.json).")
